@@ -2019,9 +2019,15 @@ class Assign(Elemwise):
 
     def _remove_common_columns(self, other):
         if set(self.keys) & set(other.keys):
-            keys = set(self.keys)
-            operands = [[k, v] for k, v in zip(other.keys, other.vals) if k not in keys]
-            return [other.frame] + list(flatten(operands)) + self.operands[1:]
+            # A column that is assigned again keeps the position of its first
+            # assignment (as in pandas), only the value is replaced
+            new = dict(zip(self.keys, self.vals))
+            operands = []
+            for k, v in zip(other.keys, other.vals):
+                operands.extend([k, new.pop(k) if k in new else v])
+            for k, v in new.items():
+                operands.extend([k, v])
+            return [other.frame] + operands
         else:
             return other.operands + self.operands[1:]
 
